@@ -28,8 +28,9 @@ fn iso_handler(other: &Scru128Id) -> String {
     let cat_limited = (.cat --limit 3 | each {{|f| $f.meta?.ctx? | default "none"}} | uniq)
     let head_own = (.head t | get meta?.ctx? | default "none")
     let head_named = (.head t --context "{other}" | get meta?.ctx? | default "none")
+    let head_elsewhere = (["only-zero" "only-A" "only-B"] | each {{|t| .head $t | get meta?.ctx? | default "none"}})
     "forced" | .append forced --context "{other}" --meta {{ctx: "from-handler"}}
-    {{cat: $cat, cat_limited: $cat_limited, head_own: $head_own, head_named: $head_named, trigger: $frame.id}}
+    {{cat: $cat, cat_limited: $cat_limited, head_own: $head_own, head_named: $head_named, head_elsewhere: $head_elsewhere, trigger: $frame.id}}
   }}
 }}"#
     )
@@ -42,8 +43,9 @@ fn iso_command(other: &Scru128Id) -> String {
     let cat = (.cat | each {{|f| $f.meta?.ctx? | default "none"}} | uniq)
     let head_own = (.head t | get meta?.ctx? | default "none")
     let head_named = (.head t --context "{other}" | get meta?.ctx? | default "none")
+    let head_elsewhere = (["only-zero" "only-A" "only-B"] | each {{|t| .head $t | get meta?.ctx? | default "none"}})
     "side" | .append cmdside --meta {{ctx: "from-command"}}
-    [{{cat: $cat, head_own: $head_own, head_named: $head_named}}] | each {{|x| $x}}
+    [{{cat: $cat, head_own: $head_own, head_named: $head_named, head_elsewhere: $head_elsewhere}}] | each {{|x| $x}}
   }}
 }}"#
     )
@@ -141,6 +143,10 @@ fn case(srv: &mut Srv, seed: u64, res: &mut CaseResult) -> R<()> {
     for (c, l) in &ctxs {
         srv.must_append("t", *c, None, Some(json!({"ctx": l, "i": "head"})), None)?;
     }
+    // topics that exist in one context only: a scoped lookup elsewhere finds nothing (no fallback to any other context)
+    srv.must_append("only-zero", ZERO_CONTEXT, None, Some(json!({"ctx": "zero", "i": "only"})), None)?;
+    srv.must_append("only-A", a, None, Some(json!({"ctx": "A", "i": "only"})), None)?;
+    srv.must_append("only-B", b, None, Some(json!({"ctx": "B", "i": "only"})), None)?;
     // triggers: only context A gets a "go"; A's command is called in A
     let go = srv.must_append("go", a, None, Some(json!({"ctx": "A"})), None)?;
     let call = srv.must_append("isoc.call", a, None, Some(json!({"ctx": "A"})), None)?;
@@ -338,6 +344,12 @@ fn case(srv: &mut Srv, seed: u64, res: &mut CaseResult) -> R<()> {
         if v["head_named"].as_str() != Some(other) {
             res.find(&["C06"], "handler-script/.head-with-explicit-context-ignored", json!({"handler_context": own, "head_named": v["head_named"], "expected": other}));
         }
+        let want_elsewhere: Vec<&str> = if own == "A" { vec!["none", "A", "none"] } else { vec!["none", "none", "B"] };
+        let got_elsewhere: Vec<String> = v["head_elsewhere"].as_array().cloned().unwrap_or_default().iter().map(|x| x.as_str().unwrap_or("none").to_string()).collect();
+        observations += 3;
+        if got_elsewhere != want_elsewhere {
+            res.find(&["C06"], "handler-script/.head-of-a-topic-that-exists-only-in-another-context", json!({"handler_context": own, "topics": ["only-zero", "only-A", "only-B"], "got": got_elsewhere, "want": want_elsewhere}));
+        }
     }
     // exactly the handler of the trigger's context answered each "go"
     for (g, c) in [(&go, a), (&go_b, b)] {
@@ -374,6 +386,10 @@ fn case(srv: &mut Srv, seed: u64, res: &mut CaseResult) -> R<()> {
         }
         if v["head_own"].as_str() != Some("A") || v["head_named"].as_str() != Some("B") {
             res.find(&["C06"], "command-script/.head-context-wrong", json!({"content": v}));
+        }
+        let got_elsewhere: Vec<String> = v["head_elsewhere"].as_array().cloned().unwrap_or_default().iter().map(|x| x.as_str().unwrap_or("none").to_string()).collect();
+        if got_elsewhere != ["none", "A", "none"] {
+            res.find(&["C06"], "command-script/.head-of-a-topic-that-exists-only-in-another-context", json!({"got": got_elsewhere}));
         }
     }
     // (6) generator frames live in the spawn's context
